@@ -93,7 +93,7 @@ Theorem C03_translated_parseNodeFromSection_is_parse_node :
                 [GoLite.VInts (map Z.of_N sec); GoLiteC03_Parse.cidv wanted]
               = GoLite.RRet (GoLite.VTuple [GoLite.VInts []; GoLite.VErr e])
   end.
-Proof. exact (fun cp H => GoLiteC03_Parse.parse_is_parse_node GoLiteC03.prog GoLiteC03.prog_parseNodeFromSection cp H). Qed.
+Proof. exact (fun cp H => GoLiteC03_Parse.parse_is_parse_node_car GoLiteC03.prog GoLiteC03.prog_parseNodeFromSection cp H). Qed.
 
 Theorem C03_translated_parseNodeFromSection_success_means_same_cid :
   forall (cid_parse : list N -> option (list N * nat)),
@@ -104,7 +104,7 @@ Theorem C03_translated_parseNodeFromSection_success_means_same_cid :
     [GoLite.VInts (map Z.of_N sec); GoLiteC03_Parse.cidv wanted] = GoLite.RRet (GoLite.VTuple [GoLite.VInts out; GoLite.VNil]) ->
   exists l n k, uvarint_dec sec = Some (l, n) /\ cid_parse (skipn n sec) = Some (wanted, k) /\
                 out = map Z.of_N (skipn k (skipn n sec)).
-Proof. exact (fun cp H => GoLiteC03_Parse.parse_success_means_same_cid GoLiteC03.prog GoLiteC03.prog_parseNodeFromSection cp H). Qed.
+Proof. exact (fun cp H => GoLiteC03_Parse.parse_success_means_same_cid_car GoLiteC03.prog GoLiteC03.prog_parseNodeFromSection cp H). Qed.
 
 Theorem C03_translated_parseNodeFromSection_nil_cid_compares_nothing :
   forall (cid_parse : list N -> option (list N * nat)),
@@ -122,7 +122,7 @@ Theorem C03_translated_parseNodeFromSection_nil_cid_compares_nothing :
            | Some (c, k) => GoLite.RRet (GoLite.VTuple [GoLite.VInts (map Z.of_N (skipn k (skipn n sec))); GoLite.VNil])
            end
   end.
-Proof. exact (fun cp H => GoLiteC03_Parse.parse_without_wanted GoLiteC03.prog GoLiteC03.prog_parseNodeFromSection cp H). Qed.
+Proof. exact (fun cp H => GoLiteC03_Parse.parse_without_wanted_car GoLiteC03.prog GoLiteC03.prog_parseNodeFromSection cp H). Qed.
 
 (* the translated function RUNS (CIDs of 2 bytes for the example): right CID -> the data; another CID -> an error *)
 Example C03_translated_parseNodeFromSection_runs :
@@ -136,6 +136,37 @@ Example C03_translated_parseNodeFromSection_runs :
   = GoLite.RRet (GoLite.VTuple [GoLite.VInts []; GoLite.VErr "fmt.Errorf"%string]).
 Proof. vm_compute. split; reflexivity. Qed.
 
+(* one level up: readNodeFromReaderAtWithOffsetAndSize (storage.go) — what Epoch.GetNodeByOffsetAndSize runs on the ReaderAt
+   path with the (offset, size) found in the index — translated likewise, composed of readFullAt and parseNodeFromSection:
+   for EVERY CAR file behind the reader (complete or cut anywhere), offset, size >= 1 and wanted CID it is the read
+   and the CID-checked parse of the model's Car.get_node: the object's bytes only when the section is completely there
+   and carries the wanted CID; a short read is an error *)
+Theorem C03_translated_readNode_is_the_models_read_and_parse :
+  forall (cid_parse : list N -> option (list N * nat)),
+  (forall r c k, cid_parse r = Some (c, k) -> k <= List.length r) ->
+  forall (file : list N) fuel rv (wanted : list N) (off len : nat),
+  (Z.of_nat off < 4611686018427387904)%Z -> (Z.of_nat len < 4611686018427387904)%Z -> 1 <= len -> 2 <= fuel ->
+  (forall sec l n, read_at file off len = Some sec -> uvarint_dec sec = Some (l, n) -> (l <= 33554432)%N) ->
+  match read_at file off len with
+  | Some sec =>
+      match parse_node cid_parse sec wanted with
+      | Some d => GoLite.call GoLiteC03.prog (GoLiteC03_Parse.ext_file cid_parse file) fuel "readNodeFromReaderAtWithOffsetAndSize"%string
+                    [rv; GoLiteC03_Parse.cidv wanted; GoLite.VInt (Z.of_nat off); GoLite.VInt (Z.of_nat len)]
+                  = GoLite.RRet (GoLite.VTuple [GoLite.VInts (map Z.of_N d); GoLite.VNil])
+      | None => exists e, GoLite.call GoLiteC03.prog (GoLiteC03_Parse.ext_file cid_parse file) fuel "readNodeFromReaderAtWithOffsetAndSize"%string
+                    [rv; GoLiteC03_Parse.cidv wanted; GoLite.VInt (Z.of_nat off); GoLite.VInt (Z.of_nat len)]
+                  = GoLite.RRet (GoLite.VTuple [GoLite.VInts []; GoLite.VErr e])
+      end
+  | None => exists e, GoLite.call GoLiteC03.prog (GoLiteC03_Parse.ext_file cid_parse file) fuel "readNodeFromReaderAtWithOffsetAndSize"%string
+                    [rv; GoLiteC03_Parse.cidv wanted; GoLite.VInt (Z.of_nat off); GoLite.VInt (Z.of_nat len)]
+                  = GoLite.RRet (GoLite.VTuple [GoLite.VInts []; GoLite.VErr e])
+  end.
+Proof.
+  exact (fun cp H file => GoLiteC03_Parse.readNode_is_the_models_read_and_parse GoLiteC03.prog
+           GoLiteC03.prog_parseNodeFromSection GoLiteC03.prog_readFullAt GoLiteC03.prog_readNodeFromReaderAtWithOffsetAndSize cp H file).
+Qed.
+
 Print Assumptions C03_translated_parseNodeFromSection_is_parse_node.
 Print Assumptions C03_translated_parseNodeFromSection_success_means_same_cid.
 Print Assumptions C03_translated_parseNodeFromSection_nil_cid_compares_nothing.
+Print Assumptions C03_translated_readNode_is_the_models_read_and_parse.
